@@ -134,6 +134,12 @@ def gen_cases(ctx):
         if rng.random() < 0.5:
             dimp.append((rng.randrange(n), rng.choice(["lib", "sub", "lib/x", "sub/deep"])))
         cases.append(mk_case(len(cases), n, edges, "random", rng=rng, fancy=rng.random() < 0.5, dir_imports=dimp, repeat=rng.random() < 0.3))
+    # a directory import whose members differ: one has imports of its own (in and outside the directory), one is plain
+    for edges in ([(3, 1)], [(6, 1)], [(3, 6)], [(6, 3), (3, 1)], [(3, 1), (6, 2)], [(3, 4)], []):
+        for root_first in (True, False):
+            e = ([(0, 5)] if root_first else []) + list(edges)
+            cases.append(mk_case(len(cases), 7, e, "dir-mixed", dir_imports=[(0, "lib")]))
+            cases.append(mk_case(len(cases), 7, e + [(1, 2)], "dir-mixed", dir_imports=[(5, "lib"), (0, "sub")] if root_first else [(0, "lib"), (0, "sub")]))
     # one file missing / unparsable at every position, reachable or not
     base = [c for c in cases if c["kind"] in ("random", "exhaustive-3") and any(c["imports"].values())]
     for c in rng.sample(base, 200 if thorough else 60):
